@@ -400,6 +400,16 @@ func c01Workload(r *ev.Run, s *sutc.SUT, seed int64, nconns, npipes int, label s
 		r.Internal("%s: routing table never loaded", label)
 		return
 	}
+	if strings.HasPrefix(label, "redirect-storm") {
+		// every slot changes hands once and the proxy never learns it (its refresh timers are minutes away in this SUT): for the
+		// whole workload every keyed request is answered MOVED first, from several nodes at once
+		ms := cl.Masters()
+		cl.Lock()
+		for sl := 0; sl < fakecluster.NumSlots; sl++ {
+			cl.SetOwnerLocked(sl, ms[(cl.Nodes[0].OwnerLocked(sl).Idx+1)%len(ms)])
+		}
+		cl.Unlock()
+	}
 	r.Sample(map[string]interface{}{"workload": label, "masters": len(cl.Nodes), "layout": layout, "connections": nconns, "pipelines_per_connection": npipes})
 
 	stop := make(chan struct{})
@@ -584,7 +594,7 @@ func sortStrings(s []string) {
 }
 
 func c01(r *ev.Run) {
-	r.Rule("pipelines of mixed requests (simple / MGET / MSET / sum / local / invalid / inline / EVAL / hostile command names) of depth 1-300 on concurrent connections over 3-6 echo-mode nodes with PRNG slot layouts, per-reply backend delays, PRNG byte fragmentation and consistent re-shards; distinct = distinct (request-class set, fragmentation class, backend-completion-inversion class) triples")
+	r.Rule("pipelines of mixed requests (simple / MGET / MSET / sum / local / invalid / inline / EVAL / hostile command names) of depth 1-300 on concurrent connections over 3-6 echo-mode nodes with PRNG slot layouts, per-reply backend delays, PRNG byte fragmentation and consistent re-shards; one workload in which every slot has changed hands and the proxy never refreshes (every keyed request is redirected); distinct = distinct (request-class set, fragmentation class, backend-completion-inversion class) triples")
 	r.Assume("echo-mode nodes answer with an encoding of the exact argument vector they received; harness RESP codec parses replies")
 	nconns, npipes, rounds := 16, 150, 1
 	if r.Tier == "thorough" {
@@ -602,6 +612,16 @@ func c01(r *ev.Run) {
 		}
 		c01Workload(r, s, r.Seed*37+int64(round), nconns, npipes/3, fmt.Sprintf("compression-%d", round), st, true)
 		s.Close()
+	}
+	// sustained redirection: nothing is ever routed right at the first attempt
+	if ss, err := startSUT(r, false, 600000, 600000); err == nil {
+		before := atomic.LoadInt64(&st.redirects)
+		c01Workload(r, ss, r.Seed*41, nconns, npipes/3, "redirect-storm", st, false)
+		r.Count("redirects_during_the_redirect_storm", atomic.LoadInt64(&st.redirects)-before)
+		sutDied(r, ss, "redirect storm")
+		ss.Close()
+	} else {
+		r.Internal("start storm sut: %v", err)
 	}
 	// race tier: same workload at 1/5 volume on the -race SUT
 	s, err := startSUT(r, true, 100, 20)
